@@ -189,6 +189,9 @@ structure RunSt where
   /-- the composer re-applied a Usage through a version `RespectOwnerRefs` does not recognise: the
   ownership statements (which exclude `.xaRaw`) are no longer evaluated on this run -/
   raw : Bool := false
+  /-- per-resource serialisation (`keySerial`) held before every action so far: the hypothesis of
+  `marker_while_ready_key_serial`, under which the marker statements are evaluated for any `maxc` -/
+  ks : Bool := true
 
 /-- the entry a cached read lagging `v` events behind is answered from: `v` entries before the
 latest, but never older than what an earlier read was served -/
@@ -212,13 +215,14 @@ def RunSt.act (st : RunSt) (a : Action) : RunSt × String :=
   let (sys', rep) := st.sys.exec a
   let fail (w : String) (st : RunSt) : RunSt := if st.ok then { st with ok := false, why := w } else st
   let (trk', ownOk) := ownerStep st.trk a rep sys'
-  let st' : RunSt := { st with sys := sys', trk := trk' }
+  let ksNew : Bool := st.ks && decide (keySerial st.sys)
+  let st' : RunSt := { st with sys := sys', trk := trk', ks := ksNew }
   let st' := if ownOk || st.raw then st' else fail "C19:model-usage-not-owned-by-current-user" st'
   let st' := if ownedOk sys'.store || st.raw then st' else fail "C19:model-ready-not-owned" st'
   let st' := if removalOk st.sys a sys' || st.lagged then st' else fail "C19:model-marker-removed-with-other-usage" st'
   let st' := if hookOk st.sys a rep then st' else fail "C19:model-webhook-verdict" st'
-  let st' := if sys'.maxc ≤ 1 && !st.lagged && !(markerOk sys'.store) then fail "C19:model-ready-usage-unmarked" st' else st'
-  let st' := if sys'.maxc ≤ 1 && !st.lagged && !(beforeReadyOk st.sys sys') then fail "C19:model-ready-before-marker" st' else st'
+  let st' := if (sys'.maxc ≤ 1 || ksNew) && !st.lagged && !(markerOk sys'.store) then fail "C19:model-ready-usage-unmarked" st' else st'
+  let st' := if (sys'.maxc ≤ 1 || ksNew) && !st.lagged && !(beforeReadyOk st.sys sys') then fail "C19:model-ready-before-marker" st' else st'
   ({ st' with hist := st'.hist.push sys'.store.usages }, rep.str)
 
 /-- the marker statements are proved for the plain world; on a schedule with informer-cache lag
@@ -233,7 +237,8 @@ def RunSt.actW (st : RunSt) (a : Action) : RunSt × String :=
     | .dr _ _ _ _ _ _ stale => stale.isSome
     | _ => false
   let raw' : Bool := match a with | .xaRaw _ _ => true | _ => false
-  let st' : RunSt := { st with sys := sys', trk := trk', lagged := st.lagged || lag', raw := st.raw || raw' }
+  let ksNew : Bool := st.ks && decide (keySerial st.sys)
+  let st' : RunSt := { st with sys := sys', trk := trk', lagged := st.lagged || lag', raw := st.raw || raw', ks := ksNew }
   let st' := if hookOk st.sys a rep then st' else fail "C19:model-webhook-verdict" st'
   ({ st' with hist := st'.hist.push sys'.store.usages }, rep.str)
 
@@ -328,9 +333,9 @@ def stepOf (st : RunSt) (j : Json) : RunSt :=
       RunSt.push (st.act (.gcR g k n))
   | "xa" =>
     let av := if str j "av" == "" then "apiextensions.crossplane.io/v1beta1" else str j "av"
-    -- does the composer's RespectOwnerRefs option recognise a Usage served in that version? (probed
-    -- from the tree: Xp.Gen.c19ComposerRespects)
-    if Xp.Gen.c19ComposerRespects.any (fun (a, k, b) => a == av && k == "Usage" && b) then
+    -- does the composer's RespectOwnerRefs option recognise a Usage served in that version? the model's
+    -- `composerRespects` (= the table probed from the tree: obligation composer_respects_is_model)
+    if composerRespects av "Usage" then
       RunSt.push (st.act (.xa (str j "name") (str j "ctrl")))
     else RunSt.push (st.actW (.xaRaw (str j "name") (str j "ctrl")))
   | "er" => RunSt.push (st.act (.er (groupOf (str j "av")) (str j "kind") (str j "name") (labelsOf j "labels")))
